@@ -179,6 +179,18 @@ def replay_args(mode, c):
 
 
 def run(pid, tier, seed, replay=None):
+    """Work directories carry the process id (a bin/mutcheck or a second bin/check running at the same time must
+    not wipe this run's scratch files) and are removed at the end."""
+    import glob
+    import shutil
+    try:
+        return run_(pid, tier, seed, replay)
+    finally:
+        for d in glob.glob(os.path.join(vlib.WORK, f"{pid}_{os.getpid()}_*")):
+            shutil.rmtree(d, ignore_errors=True)
+
+
+def run_(pid, tier, seed, replay=None):
     ck = vlib.Check(pid, tier, seed)
     ck.assumptions = [
         "time in half-millisecond units; fixture tick = 1 ms; rule delays are multiples of 500 us",
@@ -196,13 +208,13 @@ def run(pid, tier, seed, replay=None):
     vlib.build_harness([DRIVER])
     if replay:
         return do_replay(ck, replay)
-    w = vlib.workdir(f"{pid}_files")
+    w = vlib.workdir(f"{pid}_{os.getpid()}_files")
     thorough = tier == "thorough"
 
     # 1. design level ------------------------------------------------------
     for name, c, need in mc_configs(tier):
         cfg = cfg_text("SpecMC", c, invariants=PROP_INVS + ["ImplInv"], view="View")
-        r = vlib.run_tlc(SUB, "Rules_MC", cfg, f"{pid}_{name}", workers=10, timeout=1700 if thorough else 400,
+        r = vlib.run_tlc(SUB, "Rules_MC", cfg, f"{pid}_{os.getpid()}_{name}", workers=10, timeout=1700 if thorough else 400,
                          coverage=True, heap="12g")
         ck.add_tlc(r, name, exhaustive=True)
         log(f"[{pid}] {name}: {r.distinct} distinct states, {r.generated} generated, depth {r.depth}, {r.wall:.0f}s")
@@ -219,7 +231,7 @@ def run(pid, tier, seed, replay=None):
     # 2. spec -> code -------------------------------------------------------
     for name, mode, c in gen_configs(tier):
         cfg = cfg_text("GenSpec", c, invariants=["Emit_"] + PROP_INVS + ["ImplInv"])
-        r = vlib.run_tlc(SUB, "RulesGen", cfg, f"{pid}_{name}", workers=10, timeout=1700, heap="12g")
+        r = vlib.run_tlc(SUB, "RulesGen", cfg, f"{pid}_{os.getpid()}_{name}", workers=10, timeout=1700, heap="12g")
         if r.violated or r.error or r.timed_out:
             log(vlib.counterexample_text(r))
             raise MachineryError(f"behaviour generation {name} failed ({r.violated or r.error or 'timeout'})")
@@ -254,7 +266,7 @@ def run(pid, tier, seed, replay=None):
                 allargs.append(args)
                 nruns += rc["runs"]
                 tf.write(open(ppath).read())
-        pr, ir = validate_trace(tpath, f"{pid}_rnd_{tname}", trace_consts(tname))
+        pr, ir = validate_trace(tpath, f"{pid}_{os.getpid()}_rnd_{tname}", trace_consts(tname))
         ck.add_tlc(pr, f"trace_prop_{tname}")
         ck.add_tlc(ir, f"trace_impl_{tname}")
         ck.traces += nruns
@@ -284,7 +296,7 @@ def run(pid, tier, seed, replay=None):
         bad = os.path.join(w, f"random_fix_corrupt_{len(demos)}.ndjson")
         if not fn(src, bad):
             raise MachineryError(f"binding demonstration: nothing to corrupt for '{what}'")
-        pr, ir = validate_trace(bad, f"{pid}_bind{len(demos)}", trace_consts("fix") if level == "impl" else None,
+        pr, ir = validate_trace(bad, f"{pid}_{os.getpid()}_bind{len(demos)}", trace_consts("fix") if level == "impl" else None,
                                 prop=(level == "prop"))
         res = pr if level == "prop" else ir
         rej = rejected(res)
@@ -367,7 +379,7 @@ def judge_divergences(ck, pid, name, mode, c, s):
     tr = s.get("div_trace")
     if not tr:
         return
-    pr, _ = validate_trace(tr, f"{pid}_div")
+    pr, _ = validate_trace(tr, f"{pid}_{os.getpid()}_div")
     if not rejected(pr):
         log(f"[{pid}] drift: {s['divergent']} behaviours of {name} diverged from the ImplSpec (first: behaviour "
             f"#{divs[0].get('line')}, {divs[0].get('what')} at {divs[0].get('at')}); the PropSpec accepts all "
@@ -386,7 +398,7 @@ def judge_divergences(ck, pid, name, mode, c, s):
 
 
 def judge_one(ck, pid, name, mode, c, d, trace):
-    pr, _ = validate_trace(trace, f"{pid}_div")
+    pr, _ = validate_trace(trace, f"{pid}_{os.getpid()}_div")
     if rejected(pr):
         ck.violation({"kind": "behaviour", "property": pid, "config": name, "mode": mode, "consts": jsonable(c),
                       "behaviour": d.get("behaviour"),
@@ -400,7 +412,7 @@ def judge_one(ck, pid, name, mode, c, d, trace):
 def do_replay(ck, path):
     rp = json.load(open(path))
     pid = ck.pid
-    w = vlib.workdir(f"{pid}_replay")
+    w = vlib.workdir(f"{pid}_{os.getpid()}_replay")
     if rp["kind"] == "behaviour":
         c = rp["consts"]
         bpath = os.path.join(w, "beh.ndjson")
@@ -424,7 +436,7 @@ def do_replay(ck, path):
                 ppath = os.path.join(w, f"part{k}.ndjson")
                 vlib.run_driver(DRIVER, args + [f"out={ppath}"])
                 tf.write(open(ppath).read())
-        pr, _ = validate_trace(tpath, f"{pid}_replay")
+        pr, _ = validate_trace(tpath, f"{pid}_{os.getpid()}_replay")
         ck.add_tlc(pr, "replay")
         ck.traces = ck.evaluations = rp["runs"]
         if rejected(pr):
